@@ -133,9 +133,15 @@ func generator(c *hx.Ctx, h *hist, cfg genCfg) opGen {
 				case 2:
 					o.Alg = "RSA"
 				}
+				// the remaining fields of AccountMetadata (what `account import --source` copies from another wallet)
+				o.IsDef = c.Intn(5) < 2
+				o.Hash = []string{"", "", "sha256", "h"}[c.Intn(4)]
+				o.PubBad = c.Intn(10) == 0
 				if cfg.allowBadImp && c.Intn(2) == 0 {
-					if c.Intn(3) == 0 {
+					if k := c.Intn(4); k == 0 {
 						o.Pwd = ""
+					} else if k == 1 {
+						o.Corrupt = []string{"salt", "key", "encalg", "curve"}[c.Intn(4)]
 					} else {
 						p := lightParams[c.Intn(len(lightParams))]
 						if p == h.Prm {
@@ -233,6 +239,22 @@ func witnesses() []hist {
 	}
 }
 
+// Fixed histories kept as regression inputs: importing accounts whose metadata is flagged as default
+// (read from another wallet's default account) must not move or duplicate the default flag.
+func regressions() []hist {
+	light := lightParams[0]
+	imp := func(slot int, label string, isdef bool) opRec {
+		return opRec{Kind: "import", Slot: slot, Label: label, Sch: 1, Pwd: "pw", IsDef: isdef, Hash: "sha256"}
+	}
+	return []hist{
+		{Stream: "regression:flagged-import", Prm: light, KeyTyp: []int{0, 0, 0, 0}, Ops: []opRec{
+			imp(0, "A", false), imp(1, "B", false), imp(2, "X", true), imp(3, "Y", true), {Kind: "setdefault", Slot: 1},
+			{Kind: "delete", Slot: 0, Pwd: "pw"}}},
+		{Stream: "regression:flagged-import", Prm: light, KeyTyp: []int{0, 0}, Ops: []opRec{
+			imp(0, "A", true), imp(1, "B", true), {Kind: "reload", Slot: -1}, {Kind: "delete", Slot: 1, Pwd: "pw"}}},
+	}
+}
+
 func Run(c *hx.Ctx) {
 	c.CoqModule("Corr.C38")
 	seq := 0
@@ -248,7 +270,7 @@ func Run(c *hx.Ctx) {
 			runHist(c, h, seq, nil)
 		}
 	}
-	for _, h := range witnesses() {
+	for _, h := range append(witnesses(), regressions()...) {
 		seq++
 		runHist(c, h, seq, nil)
 	}
